@@ -153,6 +153,7 @@ def worker(args):
             sess.close(uri)
         except (ServerDied, Timeout, FrameError) as e:
             feat.died(part, e, "semanticTokens request on a hostile document", sc, sess)
+    feat.report(part)
     sess.kill()
     return part
 
